@@ -719,3 +719,53 @@ fn c08_dispatch() {
     kani::cover!(kind == 3, "C08.cover.dispatch_phc_grace");
     kani::cover!(kind == 7, "C08.cover.dispatch_abort");
 }
+
+
+// =============================================================================================
+// C19 plumbing: shm_writer::run(ctx, max_drift_ppb) hands exactly that value to the updater that
+// process_messages then runs with, in the initial (never synchronised) state.
+// ShmWriter::new (file system) and process_messages (the loop, proved separately) are recorders.
+// =============================================================================================
+static mut RUN_AREA: [u64; 9] = [0; 9];
+static mut RUN_PM_CALLS: u32 = 0;
+static mut RUN_DRIFT_SEEN: u32 = 0;
+static mut RUN_INITIAL_STATE_OK: bool = false;
+static mut RUN_WRITER_NEW_CALLS: u32 = 0;
+
+fn stub_shm_writer_new(_path: &Path) -> std::io::Result<ShmWriter> {
+    unsafe {
+        RUN_WRITER_NEW_CALLS += 1;
+        Ok(clock_bound_shm::verif_pub::writer_over(std::ptr::addr_of_mut!(RUN_AREA).cast()))
+    }
+}
+
+fn stub_process_messages<W: ShmWrite>(ctx: Context, updater: ShmUpdater<W>) {
+    unsafe {
+        RUN_PM_CALLS += 1;
+        RUN_DRIFT_SEEN = updater.max_drift_ppb;
+        RUN_INITIAL_STATE_OK = updater.bound_nsec == 0 && updater.as_of.tv_sec == 0 && updater.as_of.tv_nsec == 0
+            && updater.shm_clock_state.value() == ClockStatus::Unknown;
+    }
+    std::mem::forget(updater);
+    std::mem::forget(ctx);
+}
+
+#[kani::proof]
+#[kani::unwind(4)]
+#[kani::stub(clock_bound_shm::ShmWriter::new, stub_shm_writer_new)]
+#[kani::stub(process_messages, stub_process_messages)]
+#[kani::stub(crate::channels::DispatchBox::send, stub_send)]
+fn c19_run_hands_the_drift_rate_to_the_updater() {
+    let drift: u32 = kani::any();
+    let (tx, rx) = mpsc::channel::<Message>();
+    std::mem::forget(tx);
+    let dbox: DispatchBox<ChannelId, Message> = unsafe { std::mem::MaybeUninit::zeroed().assume_init() };
+    let ctx = Context { channel_id: ChannelId::ShmWriter, mbox: rx, dbox };
+    run(ctx, drift);
+    unsafe {
+        kani::assert(RUN_WRITER_NEW_CALLS == 1 && RUN_PM_CALLS == 1, "C19.run.one_writer_one_message_loop");
+        kani::assert(RUN_DRIFT_SEEN == drift, "C19.run.drift_rate_handed_over_verbatim");
+        kani::assert(RUN_INITIAL_STATE_OK, "C09.run.updater_starts_never_synchronised");
+    }
+    kani::cover!(drift == u32::MAX, "C19.cover.run_max");
+}
